@@ -6,7 +6,7 @@ import framework
 from framework import REPO, ROOT
 
 TIE = ["Nsq.Tie.Gate"]
-PROPS = ["Nsq.Props.C11", "Nsq.Props.C11Auth"]
+PROPS = ["Nsq.Props.C11", "Nsq.Props.C11Auth", "Nsq.Props.C11Tls"]
 
 DENY_CODES = ("E_AUTH_FIRST", "E_AUTH_FAILED", "E_UNAUTHORIZED", "E_AUTH_DISABLED")
 OPS = ("cfg", "http", "https", "conn", "c", "cx", "cp", "cb", "cz", "x")
